@@ -73,6 +73,35 @@ def lean_build(targets: list[str]) -> tuple[bool, str]:
     return _built[key]
 
 
+def project_import_closure(module: str) -> list[str]:
+    """the modules of this project that `module` imports, transitively (incl. itself)"""
+    seen: list[str] = []
+    todo = [module]
+    while todo:
+        m = todo.pop()
+        if m in seen:
+            continue
+        f = LEAN_DIR / (m.replace(".", "/") + ".lean")
+        if not f.exists():
+            continue
+        seen.append(m)
+        for line in f.read_text().splitlines():
+            mm = re.match(r"\s*import\s+(CfdpVerif(?:\.\w+)+)", line)
+            if mm:
+                todo.append(mm.group(1))
+            elif line.strip() and not line.startswith(("import", "--", "/-")) and "import" not in line:
+                break
+    return sorted(seen)
+
+
+def leanchecker(module: str) -> tuple[bool, str]:
+    """independent re-check (Lean's `leanchecker`) of the compiled property module and of every
+    project module it imports: every declaration is replayed through the kernel from the .olean files"""
+    mods = project_import_closure(module)
+    rc, out = sh(["lake", "env", "leanchecker", *mods], cwd=LEAN_DIR, timeout=3600)
+    return rc == 0, f"{len(mods)} modules: " + out[-1500:]
+
+
 def strip_lean_comments(src: str) -> str:
     # remove nested block comments and line comments
     out, i, depth = [], 0, 0
